@@ -5,6 +5,7 @@ use super::{c01, c02};
 use crate::drive;
 use crate::gen;
 use crate::indep::decode;
+use crate::model::*;
 use crate::runner::{Obs, Prop, Tier};
 use crate::sink::SharedSink;
 use proptest::prelude::*;
@@ -57,6 +58,39 @@ impl Prop for C06 {
     }
     fn cases(tier: Tier) -> u64 {
         tier.pick(20_000, 100_000)
+    }
+    fn fixed_cases(_tier: Tier) -> Vec<Case> {
+        // scale: coverage depth beyond 2^12 (depth^2 beyond f32's exact integers): 5000 identical entries,
+        // 4500 nested ones, and a plain neighbour chromosome
+        let mut deep = vec![];
+        for _ in 0..5000u32 {
+            deep.push(BbEntry { s: 100, e: 140, rest: String::new() });
+        }
+        let mut nested = vec![];
+        for i in 0..4500u32 {
+            nested.push(BbEntry { s: i, e: 20_000 - i, rest: String::new() });
+        }
+        let mk = |multipass: bool| {
+            let mut o = Opts::default();
+            o.multipass = multipass;
+            o.items_per_slot = 512;
+            o.zoom = ZoomSpec::Manual(vec![]);
+            Case::Bb(c02::Case {
+                input: BbInput {
+                    chroms: vec![
+                        BbChrom { name: "chrDeep".into(), size: 1000, entries: deep.clone() },
+                        BbChrom { name: "chrNested".into(), size: 30_000, entries: nested.clone() },
+                        BbChrom { name: "chrPlain".into(), size: 500, entries: vec![BbEntry { s: 5, e: 50, rest: String::new() }, BbEntry { s: 40, e: 90, rest: String::new() }] },
+                    ],
+                    unused: vec![],
+                    autosql: None,
+                },
+                opts: o,
+                k2_nudged: 0,
+                delay: None,
+            })
+        };
+        vec![mk(false), mk(true)]
     }
     fn strategy(tier: Tier) -> BoxedStrategy<Case> {
         prop_oneof![
